@@ -433,4 +433,664 @@ theorem validate_ok_iff_conforms (s : Schema) (e : Entry) :
         · exact absurd h2 hc
         · exact h2
 
+/-! ## lookup / setAva / addAvaInt -/
+
+theorem getAva_cons (p : Nat × Ava) (r : Entry) (a : Nat) :
+    getAva (p :: r) a = if a == p.1 then some p.2 else getAva r a := by
+  obtain ⟨k, v⟩ := p
+  simp only [getAva, List.lookup]
+  cases h : a == k <;> simp
+
+theorem getAva_append_none {e l : Entry} {a : Nat} (h : getAva e a = none) :
+    getAva (e ++ l) a = getAva l a := by
+  induction e with
+  | nil => rfl
+  | cons p r ih =>
+    rw [getAva_cons] at h
+    rw [List.cons_append, getAva_cons]
+    cases hk : a == p.1 with
+    | true => simp [hk] at h
+    | false => simp only [hk] at h ⊢; exact ih h
+
+theorem getAva_append_some {e l : Entry} {a : Nat} {x : Ava} (h : getAva e a = some x) :
+    getAva (e ++ l) a = some x := by
+  induction e with
+  | nil => simp [getAva] at h
+  | cons p r ih =>
+    rw [getAva_cons] at h
+    rw [List.cons_append, getAva_cons]
+    cases hk : a == p.1 with
+    | true => simpa [hk] using h
+    | false => simp only [hk] at h ⊢; exact ih h
+
+theorem any_key_iff_getAva (e : Entry) (a : Nat) :
+    e.any (fun p => p.1 == a) = (getAva e a).isSome := by
+  induction e with
+  | nil => rfl
+  | cons p r ih =>
+    rw [getAva_cons, List.any_cons, ih]
+    by_cases h : p.1 = a
+    · subst h; simp
+    · have h1 : (p.1 == a) = false := by simpa using h
+      have h2 : (a == p.1) = false := by simpa using fun h' => h h'.symm
+      simp [h1, h2]
+
+theorem getAva_map_replace_self {e : Entry} {a : Nat} {x : Ava} (h : (getAva e a).isSome) :
+    getAva (e.map (fun p => if p.1 == a then (a, x) else p)) a = some x := by
+  induction e with
+  | nil => simp [getAva] at h
+  | cons p r ih =>
+    rw [List.map_cons, getAva_cons]
+    rw [getAva_cons] at h
+    by_cases hk : p.1 = a
+    · subst hk; simp
+    · have h1 : (p.1 == a) = false := by simpa using hk
+      have h2 : (a == p.1) = false := by simpa using fun h' => hk h'.symm
+      simp only [h1, h2, Bool.false_eq_true, if_false] at h ⊢
+      exact ih h
+
+theorem getAva_map_replace_ne {e : Entry} {a b : Nat} {x : Ava} (hne : b ≠ a) :
+    getAva (e.map (fun p => if p.1 == a then (a, x) else p)) b = getAva e b := by
+  induction e with
+  | nil => rfl
+  | cons p r ih =>
+    rw [List.map_cons, getAva_cons, getAva_cons, ih]
+    by_cases hk : p.1 = a
+    · subst hk
+      have : (b == p.1) = false := by simpa using hne
+      simp [this]
+    · have h1 : (p.1 == a) = false := by simpa using hk
+      simp [h1]
+
+theorem getAva_setAva_self (e : Entry) (a : Nat) (x : Ava) : getAva (setAva e a x) a = some x := by
+  unfold setAva
+  split
+  · rename_i h
+    rw [any_key_iff_getAva] at h
+    exact getAva_map_replace_self h
+  · rename_i h
+    rw [any_key_iff_getAva] at h
+    have hn : getAva e a = none := by
+      cases hg : getAva e a with
+      | none => rfl
+      | some _ => simp [hg] at h
+    rw [getAva_append_none hn]
+    simp [getAva, List.lookup]
+
+theorem getAva_setAva_ne (e : Entry) {a b : Nat} (x : Ava) (hne : b ≠ a) :
+    getAva (setAva e a x) b = getAva e b := by
+  unfold setAva
+  split
+  · exact getAva_map_replace_ne hne
+  · cases hg : getAva e b with
+    | none =>
+      rw [getAva_append_none hg]
+      have : (b == a) = false := by simpa using hne
+      simp [getAva, List.lookup, this]
+    | some y => exact getAva_append_some hg
+
+theorem mem_setAva {e : Entry} {a : Nat} {x : Ava} {p : Nat × Ava} (h : p ∈ setAva e a x) :
+    p = (a, x) ∨ (p ∈ e ∧ p.1 ≠ a) := by
+  unfold setAva at h
+  split at h
+  · rw [List.mem_map] at h
+    obtain ⟨q, hq, rfl⟩ := h
+    by_cases hk : q.1 = a
+    · left; simp [hk]
+    · right
+      have h1 : (q.1 == a) = false := by simpa using hk
+      simp only [h1, Bool.false_eq_true, if_false]
+      exact ⟨hq, hk⟩
+  · rename_i hany
+    rw [List.mem_append] at h
+    rcases h with h | h
+    · right
+      refine ⟨h, fun hk => hany ?_⟩
+      rw [List.any_eq_true]
+      exact ⟨p, h, by simpa using hk⟩
+    · left; simpa using h
+
+/-- the class attribute, if there is one, is a set of class names (an iutf8 set) -/
+def ClassWellTyped (e : Entry) : Prop := ∀ ava, getAva e aClass = some ava → ava.syn = synIutf8
+
+theorem classSet_setAva_ne (e : Entry) {a : Nat} (x : Ava) (hne : a ≠ aClass) :
+    classSet (setAva e a x) = classSet e := by
+  unfold classSet
+  rw [getAva_setAva_ne e x (Ne.symm hne)]
+
+theorem classWellTyped_setAva_ne (e : Entry) {a : Nat} (x : Ava) (hne : a ≠ aClass) :
+    ClassWellTyped (setAva e a x) ↔ ClassWellTyped e := by
+  unfold ClassWellTyped
+  rw [getAva_setAva_ne e x (Ne.symm hne)]
+
+/-- adding a class name: afterwards the class is there, nothing is lost, typing is kept -/
+theorem classSet_addClass (e : Entry) (c : Nat) (hwt : ClassWellTyped e) :
+    ∃ ecs, classSet (addAvaInt e aClass synIutf8 ⟨c, true⟩) = some ecs ∧ c ∈ ecs
+      ∧ (∀ ecs0, classSet e = some ecs0 → ∀ d ∈ ecs0, d ∈ ecs)
+      ∧ ClassWellTyped (addAvaInt e aClass synIutf8 ⟨c, true⟩) := by
+  unfold addAvaInt
+  cases hg : getAva e aClass with
+  | none =>
+    have hl : getAva (e ++ [(aClass, (⟨synIutf8, [⟨c, true⟩]⟩ : Ava))]) aClass = some ⟨synIutf8, [⟨c, true⟩]⟩ := by
+      rw [getAva_append_none hg]; simp [getAva, List.lookup]
+    refine ⟨[c], ?_, by simp, ?_, ?_⟩
+    · simp [classSet, hl]
+    · intro ecs0 h0; simp [classSet, hg] at h0
+    · intro ava h; rw [hl] at h; cases h; rfl
+  | some ava =>
+    have hs : ava.syn = synIutf8 := hwt ava hg
+    simp only [hs, beq_self_eq_true, if_true]
+    split
+    · rename_i hany
+      refine ⟨ava.vals.map (·.atom), ?_, ?_, ?_, hwt⟩
+      · simp [classSet, hg, hs]
+      · rw [List.any_eq_true] at hany
+        obtain ⟨x, hx, hxc⟩ := hany
+        rw [List.mem_map]
+        exact ⟨x, hx, by simpa using hxc⟩
+      · intro ecs0 h0 d hd
+        simp only [classSet, hg, hs, beq_self_eq_true, if_true, Option.some.injEq] at h0
+        rw [← h0] at hd; exact hd
+    · have hl := getAva_setAva_self e aClass (⟨synIutf8, ava.vals ++ [(⟨c, true⟩ : Val)]⟩ : Ava)
+      refine ⟨(ava.vals ++ [(⟨c, true⟩ : Val)]).map (·.atom), ?_, ?_, ?_, ?_⟩
+      · simp only [classSet, hl, beq_self_eq_true, if_true]
+      · simp
+      · intro ecs0 h0 d hd
+        simp only [classSet, hg, hs, beq_self_eq_true, if_true, Option.some.injEq] at h0
+        rw [← h0] at hd
+        rw [List.map_append, List.mem_append]; exact Or.inl hd
+      · intro ava' h; rw [hl] at h; cases h; rfl
+
+theorem addAvaInt_ne_class (e : Entry) {a : Nat} (syn : Nat) (v : Val) (hne : a ≠ aClass) :
+    classSet (addAvaInt e a syn v) = classSet e
+      ∧ (ClassWellTyped (addAvaInt e a syn v) ↔ ClassWellTyped e) := by
+  unfold addAvaInt
+  cases hg : getAva e a with
+  | none =>
+    have hl : ∀ l : Entry, (∀ p ∈ l, p.1 = a) → getAva (e ++ l) aClass = getAva e aClass := by
+      intro l hl
+      cases hc : getAva e aClass with
+      | some y => exact getAva_append_some hc
+      | none =>
+        rw [getAva_append_none hc]
+        induction l with
+        | nil => rfl
+        | cons p r ih =>
+          rw [getAva_cons]
+          have : (aClass == p.1) = false := by
+            have := hl p List.mem_cons_self
+            simpa [this] using Ne.symm hne
+          simp only [this, Bool.false_eq_true, if_false]
+          exact ih (fun q hq => hl q (List.mem_cons_of_mem _ hq))
+    have := hl [(a, ⟨syn, [v]⟩)] (by simp)
+    exact ⟨by simp [classSet, this], by simp [ClassWellTyped, this]⟩
+  | some ava =>
+    simp only
+    split
+    · split
+      · exact ⟨rfl, Iff.rfl⟩
+      · exact ⟨classSet_setAva_ne e _ hne, classWellTyped_setAva_ne e _ hne⟩
+    · exact ⟨rfl, Iff.rfl⟩
+
+/-! ## validate_repl -/
+
+theorem validateRepl_of_ok {s : Schema} {u : Nat} {e : Entry} (h : validate s e = .ok ()) :
+    validateRepl s u e = e := by
+  unfold validateRepl; rw [h]
+
+/-- a merged entry that fails the schema leaves `validate_repl` as a recycled conflict entry -/
+theorem validateRepl_of_err {s : Schema} {u : Nat} {e : Entry} {x : SErr}
+    (h : validate s e = .error x) (hwt : ClassWellTyped e) :
+    ∃ ecs, classSet (validateRepl s u e) = some ecs ∧ cConflict ∈ ecs ∧ cRecycled ∈ ecs := by
+  unfold validateRepl; rw [h]
+  simp only [replFailClasses, replFailAttr, List.foldl_cons, List.foldl_nil]
+  obtain ⟨ecs1, h1, hr1, _, hwt1⟩ := classSet_addClass e Cls.recycled.atom hwt
+  obtain ⟨ecs2, h2, hc2, hsub2, _⟩ :=
+    classSet_addClass (addAvaInt e aClass synIutf8 ⟨Cls.recycled.atom, true⟩) Cls.conflict.atom hwt1
+  have hne : AttrName.sourceUuid.atom ≠ aClass := by decide
+  refine ⟨ecs2, ?_, hc2, hsub2 ecs1 h1 _ hr1⟩
+  rw [(addAvaInt_ne_class _ synUuid ⟨u, true⟩ hne).1]
+  exact h2
+
+theorem validateRepl_illtyped {s : Schema} {u : Nat} {e : Entry} (hwt : ¬ ClassWellTyped e) :
+    ¬ ClassWellTyped (validateRepl s u e) := by
+  unfold validateRepl
+  split
+  · exact hwt
+  · simp only [replFailClasses, replFailAttr, List.foldl_cons, List.foldl_nil]
+    have hne : AttrName.sourceUuid.atom ≠ aClass := by decide
+    rw [(addAvaInt_ne_class _ synUuid ⟨u, true⟩ hne).2]
+    -- an ill-typed class attribute refuses both class names
+    have key : ∀ (e : Entry) (c : Nat), ¬ ClassWellTyped e →
+        addAvaInt e aClass synIutf8 ⟨c, true⟩ = e := by
+      intro e c hw
+      unfold addAvaInt
+      cases hg : getAva e aClass with
+      | none => exact absurd (fun ava h => by rw [hg] at h; cases h) hw
+      | some ava =>
+        have : ava.syn ≠ synIutf8 := fun hs => hw (fun ava' h => by rw [hg] at h; cases h; exact hs)
+        have : (ava.syn == synIutf8) = false := by simpa using this
+        simp [this]
+    rw [key e _ hwt, key e _ hwt]
+    exact hwt
+
+/-! ## The two attributes `seal` writes after validation -/
+
+/-- the entry without `last_modified_cid` / `created_at_cid` -/
+def stripCid (e : Entry) : Entry := e.filter (fun p => !(p.1 == aLastMod || p.1 == aCreatedAt))
+
+theorem getAva_strip (e : Entry) {a : Nat} (h1 : a ≠ aLastMod) (h2 : a ≠ aCreatedAt) :
+    getAva (stripCid e) a = getAva e a := by
+  induction e with
+  | nil => rfl
+  | cons p r ih =>
+    unfold stripCid at ih ⊢
+    rw [List.filter_cons]
+    split
+    · rw [getAva_cons, getAva_cons, ih]
+    · rename_i hk
+      rw [getAva_cons, ih]
+      have hk' : p.1 = aLastMod ∨ p.1 = aCreatedAt := by
+        cases h1' : p.1 == aLastMod with
+        | true => exact Or.inl (by simpa using h1')
+        | false =>
+          cases h2' : p.1 == aCreatedAt with
+          | true => exact Or.inr (by simpa using h2')
+          | false => simp [h1', h2'] at hk
+      have : (a == p.1) = false := by
+        rcases hk' with hk' | hk'
+        · simpa [hk'] using h1
+        · simpa [hk'] using h2
+      simp [this]
+
+theorem getAva_strip_cid (e : Entry) {a : Nat} (h : a = aLastMod ∨ a = aCreatedAt) :
+    getAva (stripCid e) a = none := by
+  induction e with
+  | nil => rfl
+  | cons p r ih =>
+    unfold stripCid at ih ⊢
+    rw [List.filter_cons]
+    split
+    · rename_i hk
+      rw [getAva_cons, ih]
+      have : (a == p.1) = false := by
+        simp only [Bool.not_eq_true', Bool.or_eq_false_iff, beq_eq_false_iff_ne] at hk
+        rcases h with h | h
+        · simpa [h] using Ne.symm hk.1
+        · simpa [h] using Ne.symm hk.2
+      simp [this]
+    · exact ih
+
+theorem mem_strip {e : Entry} {p : Nat × Ava} :
+    p ∈ stripCid e ↔ p ∈ e ∧ p.1 ≠ aLastMod ∧ p.1 ≠ aCreatedAt := by
+  simp [stripCid, List.mem_filter]
+
+theorem classSet_strip (e : Entry) : classSet (stripCid e) = classSet e := by
+  unfold classSet
+  rw [getAva_strip e (by decide) (by decide)]
+
+theorem strip_map_replace (e : Entry) {a : Nat} (x : Ava) (h : a = aLastMod ∨ a = aCreatedAt) :
+    stripCid (e.map (fun p => if p.1 == a then (a, x) else p)) = stripCid e := by
+  have hdrop : (!((a == aLastMod) || (a == aCreatedAt))) = false := by
+    rcases h with h | h <;> simp [h]
+  unfold stripCid
+  induction e with
+  | nil => rfl
+  | cons p r ih =>
+    rw [List.map_cons, List.filter_cons, List.filter_cons, ih]
+    by_cases hk : p.1 = a
+    · have : (p.1 == a) = true := by simpa using hk
+      simp only [this, if_true, hdrop, Bool.false_eq_true, if_false]
+      rw [hk, hdrop]; simp
+    · have : (p.1 == a) = false := by simpa using hk
+      simp [this]
+
+theorem strip_setAva (e : Entry) {a : Nat} (x : Ava) (h : a = aLastMod ∨ a = aCreatedAt) :
+    stripCid (setAva e a x) = stripCid e := by
+  unfold setAva
+  split
+  · exact strip_map_replace e x h
+  · unfold stripCid
+    rw [List.filter_append]
+    rcases h with rfl | rfl <;> simp [List.filter_cons]
+
+theorem strip_seal (cid : Nat) (e : Entry) : stripCid (sealEntry cid e) = stripCid e := by
+  unfold sealEntry
+  simp only [sealAttrs, List.foldl_cons, List.foldl_nil]
+  rw [strip_setAva _ (a := AttrName.createdAtCid.atom) _ (Or.inr rfl),
+    strip_setAva _ (a := AttrName.lastModifiedCid.atom) _ (Or.inl rfl)]
+
+theorem classWellTyped_seal (cid : Nat) (e : Entry) :
+    ClassWellTyped (sealEntry cid e) ↔ ClassWellTyped e := by
+  unfold sealEntry
+  simp only [sealAttrs, List.foldl_cons, List.foldl_nil]
+  rw [classWellTyped_setAva_ne _ _ (by decide), classWellTyped_setAva_ne _ _ (by decide)]
+
+/-- no class requires the two attributes that `seal` maintains (true of the shipped schema:
+they are `systemmay` of `object`; checked by the harness on every dumped schema) -/
+def CidNotRequired (s : Schema) : Prop :=
+  ∀ c sc, findClass s c = some sc → ∀ a, (a ∈ sc.systemmust ∨ a ∈ sc.must) →
+    a ≠ aLastMod ∧ a ≠ aCreatedAt
+
+theorem conforms_strip {s : Schema} {e : Entry} (hs : CidNotRequired s) (h : Conforms s e) :
+    Conforms s (stripCid e) := by
+  obtain ⟨ecs, hcs, h⟩ := h
+  refine ⟨ecs, by rw [classSet_strip]; exact hcs, ?_⟩
+  rcases h with h | h
+  · exact Or.inl h
+  · right
+    refine ⟨h.classesKnown, h.supplements, h.excludes, h.requiredDefined, ?_, ?_⟩
+    · rcases h.requiredPresent with hr | hr
+      · exact Or.inl hr
+      · right
+        intro a ha
+        obtain ⟨c, hc, sc, hsc, hm⟩ := ha
+        have := hs c sc hsc a hm
+        rw [getAva_strip e this.1 this.2]
+        exact hr a ⟨c, hc, sc, hsc, hm⟩
+    · rcases h.attrs with ⟨hx, ha⟩ | ⟨hx, hd, ha⟩
+      · exact Or.inl ⟨hx, fun p hp => ha p (mem_strip.1 hp).1⟩
+      · exact Or.inr ⟨hx, hd, fun p hp => ha p (mem_strip.1 hp).1⟩
+
+/-- the stored entry conforms as soon as its stripped form does and its two cid attributes, where
+present, are allowed and well formed -/
+theorem conforms_unstrip {s : Schema} {e : Entry} (h : Conforms s (stripCid e))
+    (hcid : ∀ p ∈ e, (p.1 = aLastMod ∨ p.1 = aCreatedAt) →
+      ∃ sa, findAttr s p.1 = some sa ∧ sa.phantom = false ∧ AvaOk sa p.2 ∧
+        ∀ ecs, classSet e = some ecs → cExtensible ∉ ecs → Allowed s ecs p.1) :
+    Conforms s e := by
+  obtain ⟨ecs, hcs, h⟩ := h
+  rw [classSet_strip] at hcs
+  refine ⟨ecs, hcs, ?_⟩
+  rcases h with h | h
+  · exact Or.inl h
+  · right
+    refine ⟨h.classesKnown, h.supplements, h.excludes, h.requiredDefined, ?_, ?_⟩
+    · rcases h.requiredPresent with hr | hr
+      · exact Or.inl hr
+      · right
+        intro a ha
+        obtain ⟨ava, hava⟩ := hr a ha
+        by_cases h1 : a = aLastMod
+        · rw [getAva_strip_cid e (Or.inl h1)] at hava; cases hava
+        · by_cases h2 : a = aCreatedAt
+          · rw [getAva_strip_cid e (Or.inr h2)] at hava; cases hava
+          · rw [getAva_strip e h1 h2] at hava; exact ⟨ava, hava⟩
+    · rcases h.attrs with ⟨hx, ha⟩ | ⟨hx, hd, ha⟩
+      · left
+        refine ⟨hx, fun p hp => ?_⟩
+        by_cases hk : p.1 = aLastMod ∨ p.1 = aCreatedAt
+        · obtain ⟨sa, h1, h2, h3, _⟩ := hcid p hp hk
+          exact ⟨sa, h1, h2, h3⟩
+        · have : p ∈ stripCid e := mem_strip.2 ⟨hp, fun h => hk (Or.inl h), fun h => hk (Or.inr h)⟩
+          exact ha p this
+      · right
+        refine ⟨hx, hd, fun p hp => ?_⟩
+        by_cases hk : p.1 = aLastMod ∨ p.1 = aCreatedAt
+        · obtain ⟨sa, h1, _, h3, h4⟩ := hcid p hp hk
+          exact ⟨h4 ecs hcs hx, sa, h1, h3⟩
+        · have : p ∈ stripCid e := mem_strip.2 ⟨hp, fun h => hk (Or.inl h), fun h => hk (Or.inr h)⟩
+          exact ha p this
+
+/-! ## Schema extension keeps valid entries valid -/
+
+/-- `s'` extends `s`: attribute definitions are kept, every class keeps its must / supplements /
+excludes lists and may only gain `may` attributes; new attributes and classes are unrestricted;
+the classes of `s'` only name attributes `s'` defines (`SchemaTransaction::validate`) -/
+structure SchemaExt (s s' : Schema) : Prop where
+  attrs : ∀ a sa, findAttr s a = some sa → findAttr s' a = some sa
+  classes : ∀ c sc, findClass s c = some sc → ∃ sc', findClass s' c = some sc' ∧
+      sc'.systemmust = sc.systemmust ∧ sc'.must = sc.must ∧
+      (∀ a, a ∈ sc.systemmay → a ∈ sc'.systemmay) ∧ (∀ a, a ∈ sc.may → a ∈ sc'.may) ∧
+      sc'.systemsupplements = sc.systemsupplements ∧ sc'.supplements = sc.supplements ∧
+      sc'.systemexcludes = sc.systemexcludes ∧ sc'.excludes = sc.excludes
+  consistent : ∀ c sc', findClass s' c = some sc' → ∀ a,
+      (a ∈ sc'.systemmust ∨ a ∈ sc'.must ∨ a ∈ sc'.systemmay ∨ a ∈ sc'.may) →
+      ∃ sa, findAttr s' a = some sa
+
+theorem conforms_mono {s s' : Schema} {e : Entry} (hx : SchemaExt s s') (h : Conforms s e) :
+    Conforms s' e := by
+  obtain ⟨ecs, hcs, h⟩ := h
+  refine ⟨ecs, hcs, ?_⟩
+  rcases h with h | h
+  · exact Or.inl h
+  right
+  -- every class of the entry, seen in s', is the s-class with possibly more `may`
+  have back : ∀ c ∈ ecs, ∀ sc', findClass s' c = some sc' → ∃ sc, findClass s c = some sc ∧
+      sc'.systemmust = sc.systemmust ∧ sc'.must = sc.must ∧
+      (∀ a, a ∈ sc.systemmay → a ∈ sc'.systemmay) ∧ (∀ a, a ∈ sc.may → a ∈ sc'.may) ∧
+      sc'.systemsupplements = sc.systemsupplements ∧ sc'.supplements = sc.supplements ∧
+      sc'.systemexcludes = sc.systemexcludes ∧ sc'.excludes = sc.excludes := by
+    intro c hc sc' hsc'
+    obtain ⟨sc, hsc⟩ := h.classesKnown c hc
+    obtain ⟨sc2, h2, rest⟩ := hx.classes c sc hsc
+    rw [hsc'] at h2; cases h2
+    exact ⟨sc, hsc, rest⟩
+  have req : ∀ a, Required s' ecs a → Required s ecs a := by
+    rintro a ⟨c, hc, sc', hsc', hm⟩
+    obtain ⟨sc, hsc, e1, e2, _⟩ := back c hc sc' hsc'
+    exact ⟨c, hc, sc, hsc, by rw [← e1, ← e2]; exact hm⟩
+  have sup : ∀ d, Supplements s' ecs d → Supplements s ecs d := by
+    rintro d ⟨c, hc, sc', hsc', hm⟩
+    obtain ⟨sc, hsc, _, _, _, _, e1, e2, _⟩ := back c hc sc' hsc'
+    exact ⟨c, hc, sc, hsc, by rw [← e1, ← e2]; exact hm⟩
+  have sup' : ∀ d, Supplements s ecs d → Supplements s' ecs d := by
+    rintro d ⟨c, hc, sc, hsc, hm⟩
+    obtain ⟨sc', hsc', _, _, _, _, e1, e2, _⟩ := hx.classes c sc hsc
+    exact ⟨c, hc, sc', hsc', by rw [e1, e2]; exact hm⟩
+  have exc : ∀ d, Excludes s' ecs d → Excludes s ecs d := by
+    rintro d ⟨c, hc, sc', hsc', hm⟩
+    obtain ⟨sc, hsc, _, _, _, _, _, _, e1, e2⟩ := back c hc sc' hsc'
+    exact ⟨c, hc, sc, hsc, by rw [← e1, ← e2]; exact hm⟩
+  have alw : ∀ a, Allowed s ecs a → Allowed s' ecs a := by
+    rintro a ⟨c, hc, sc, hsc, hm⟩
+    obtain ⟨sc', hsc', e1, e2, m1, m2, _⟩ := hx.classes c sc hsc
+    refine ⟨c, hc, sc', hsc', ?_⟩
+    rcases hm with hm | hm | hm | hm
+    · exact Or.inl (by rw [e1]; exact hm)
+    · exact Or.inr (Or.inl (by rw [e2]; exact hm))
+    · exact Or.inr (Or.inr (Or.inl (m1 a hm)))
+    · exact Or.inr (Or.inr (Or.inr (m2 a hm)))
+  refine ⟨?_, ?_, ?_, ?_, ?_, ?_⟩
+  · intro c hc
+    obtain ⟨sc, hsc⟩ := h.classesKnown c hc
+    obtain ⟨sc', hsc', _⟩ := hx.classes c sc hsc
+    exact ⟨sc', hsc'⟩
+  · rcases h.supplements with hn | ⟨d, hd, hin⟩
+    · exact Or.inl (fun d hd => hn d (sup d hd))
+    · exact Or.inr ⟨d, sup' d hd, hin⟩
+  · exact fun d hd => h.excludes d (exc d hd)
+  · intro a ha
+    obtain ⟨sa, hsa⟩ := h.requiredDefined a (req a ha)
+    exact ⟨sa, hx.attrs a sa hsa⟩
+  · rcases h.requiredPresent with hr | hr
+    · exact Or.inl hr
+    · exact Or.inr (fun a ha => hr a (req a ha))
+  · rcases h.attrs with ⟨hxt, ha⟩ | ⟨hxt, _, ha⟩
+    · left
+      refine ⟨hxt, fun p hp => ?_⟩
+      obtain ⟨sa, h1, h2, h3⟩ := ha p hp
+      exact ⟨sa, hx.attrs _ sa h1, h2, h3⟩
+    · right
+      refine ⟨hxt, ?_, fun p hp => ?_⟩
+      · rintro a ⟨c, hc, sc', hsc', hm⟩
+        exact hx.consistent c sc' hsc' a hm
+      · obtain ⟨h0, sa, h1, h3⟩ := ha p hp
+        exact ⟨alw _ h0, sa, hx.attrs _ sa h1, h3⟩
+
+/-! ## Store paths -/
+
+/-- what the invariant says of a stored entry: without the two attributes `seal` maintains it
+passes the schema check; the only way round is a class attribute that is not a set of class
+names, which only a replication supplier can deliver (`validate_repl` cannot refuse) -/
+def Good (s : Schema) (e : Entry) : Prop :=
+  validate s (stripCid e) = .ok () ∨ ¬ ClassWellTyped e
+
+theorem good_of_valid {s : Schema} {e : Entry} (hs : CidNotRequired s)
+    (h : validate s e = .ok ()) : Good s e :=
+  Or.inl ((validate_ok_iff_conforms _ _).2 (conforms_strip hs ((validate_ok_iff_conforms _ _).1 h)))
+
+theorem good_of_conflict {s : Schema} {e : Entry}
+    (h : ∃ ecs, classSet e = some ecs ∧ cConflict ∈ ecs) : Good s e := by
+  obtain ⟨ecs, hcs, hc⟩ := h
+  left
+  rw [validate_ok_iff_conforms]
+  exact ⟨ecs, by rw [classSet_strip]; exact hcs, Or.inl hc⟩
+
+theorem good_seal {s : Schema} {e : Entry} (cid : Nat) (h : Good s e) : Good s (sealEntry cid e) := by
+  rcases h with h | h
+  · left; rw [strip_seal]; exact h
+  · right; rw [classWellTyped_seal]; exact h
+
+theorem good_validateRepl {s : Schema} (hs : CidNotRequired s) (u : Nat) (e : Entry) :
+    Good s (validateRepl s u e) := by
+  by_cases hwt : ClassWellTyped e
+  · cases hv : validate s e with
+    | ok _ => rw [validateRepl_of_ok hv]; exact good_of_valid hs hv
+    | error x =>
+      obtain ⟨ecs, h1, h2, _⟩ := validateRepl_of_err (u := u) hv hwt
+      exact good_of_conflict ⟨ecs, h1, h2⟩
+  · exact Or.inr (validateRepl_illtyped hwt)
+
+theorem good_mono {s s' : Schema} {e : Entry} (hx : SchemaExt s s') (h : Good s e) : Good s' e := by
+  rcases h with h | h
+  · left
+    rw [validate_ok_iff_conforms] at h ⊢
+    exact conforms_mono hx h
+  · exact Or.inr h
+
+theorem validateInvalid_ok {s : Schema} {e : Entry} (h : validateInvalid s e = .ok ()) :
+    validate s e = .ok () := by
+  unfold validateInvalid at h
+  split at h
+  · cases h
+  · exact h
+
+theorem validateAll_ok {s : Schema} {c : List Entry} (h : validateAll s c = .ok ()) :
+    ∀ e ∈ c, validate s e = .ok () := by
+  induction c with
+  | nil => intro e he; cases he
+  | cons x r ih =>
+    unfold validateAll at h
+    split at h
+    · cases h
+    · rename_i hx
+      intro e he
+      rcases List.mem_cons.1 he with rfl | he
+      · exact validateInvalid_ok (by rw [hx])
+      · exact ih h e he
+
+theorem runSteps_good {s : Schema} (hs : CidNotRequired s) (env : Env)
+    (hcc : ∀ e ∈ env.conflictCopies, Good s e) :
+    ∀ (steps : List Step) (v : Bool) (c w out : List Entry),
+      wellOrderedFrom v steps = true → (v = true → ∀ e ∈ c, Good s e) → (∀ e ∈ w, Good s e) →
+      runSteps env s steps c w = .ok out → ∀ e ∈ out, Good s e := by
+  intro steps
+  induction steps with
+  | nil =>
+    intro v c w out _ _ hw hr
+    simp only [runSteps] at hr; cases hr; exact hw
+  | cons st r ih =>
+    intro v c w out hwo hc hw hr
+    cases st with
+    | mutate t =>
+      simp only [runSteps] at hr
+      split at hr
+      · cases hr
+      · exact ih false _ w out (by simpa [wellOrderedFrom] using hwo) (fun h => by cases h) hw hr
+    | validate =>
+      simp only [runSteps] at hr
+      split at hr
+      · cases hr
+      · rename_i hv
+        exact ih true c w out (by simpa [wellOrderedFrom] using hwo)
+          (fun _ e he => good_of_valid hs (validateAll_ok hv e he)) hw hr
+    | validateRepl =>
+      simp only [runSteps] at hr
+      refine ih true _ w out (by simpa [wellOrderedFrom] using hwo) (fun _ e he => ?_) hw hr
+      rw [List.mem_map] at he
+      obtain ⟨x, _, rfl⟩ := he
+      exact good_validateRepl hs _ x
+    | sealing =>
+      simp only [runSteps] at hr
+      refine ih v _ w out (by simpa [wellOrderedFrom] using hwo) (fun hv e he => ?_) hw hr
+      rw [List.mem_map] at he
+      obtain ⟨x, hx, rfl⟩ := he
+      exact good_seal _ (hc hv x hx)
+    | store m =>
+      simp only [runSteps] at hr
+      simp only [wellOrderedFrom, Bool.and_eq_true] at hwo
+      refine ih v c _ out hwo.2 hc (fun e he => ?_) hr
+      rcases List.mem_append.1 he with he | he
+      · exact hw e he
+      · exact hc hwo.1 e he
+    | storeConflictCopies =>
+      simp only [runSteps] at hr
+      refine ih v c _ out (by simpa [wellOrderedFrom] using hwo) hc (fun e he => ?_) hr
+      rcases List.mem_append.1 he with he | he
+      · exact hw e he
+      · exact hcc e he
+    | check t =>
+      simp only [runSteps] at hr
+      split at hr
+      · cases hr
+      · exact ih v c w out (by simpa [wellOrderedFrom] using hwo) hc hw hr
+    | post t =>
+      simp only [runSteps] at hr
+      split at hr
+      · cases hr
+      · exact ih v c w out (by simpa [wellOrderedFrom] using hwo) hc hw hr
+
+/-! ## Histories -/
+
+def DbGood (s : Schema) (db : Db) : Prop := ∀ e ∈ db, Good s e
+
+/-- an operation as the code performs it: a well-ordered store path; the conflict copies the
+replication path stores unvalidated carry class `conflict` (`resolve_add_conflict`) -/
+structure OpOk (o : Op) : Prop where
+  ordered : wellOrdered o.steps = true
+  copies : ∀ e ∈ o.env.conflictCopies, ∃ ecs, classSet e = some ecs ∧ cConflict ∈ ecs
+
+theorem applyOp_good {s : Schema} {db : Db} {o : Op} (hs : CidNotRequired s) (ho : OpOk o)
+    (hdb : DbGood s db) : DbGood s (applyOp s db o).1 := by
+  unfold applyOp
+  split
+  · rename_i w hw
+    intro e he
+    rcases List.mem_append.1 he with he | he
+    · exact hdb e (List.mem_filter.1 he).1
+    · exact runSteps_good hs o.env (fun e he => good_of_conflict (ho.copies e he)) o.steps false _ []
+        w ho.ordered (fun h => by cases h) (fun e he => by cases he) hw e he
+  · exact hdb
+
+theorem applyOp_rejected {s : Schema} {db : Db} {o : Op} (h : (applyOp s db o).2 = false) :
+    (applyOp s db o).1 = db := by
+  unfold applyOp at h ⊢
+  split
+  · rename_i w hw; rw [hw] at h; cases h
+  · rfl
+
+/-- the histories of the property's quantifier: operations through the store paths, schema
+reloads that only extend -/
+def HistoryOk : Schema → List HStep → Prop
+  | _, [] => True
+  | s, .op o :: r => OpOk o ∧ HistoryOk s r
+  | s, .reload s' :: r => SchemaExt s s' ∧ CidNotRequired s' ∧ HistoryOk s' r
+
+theorem runHistory_good : ∀ (h : List HStep) (s : Schema) (db : Db),
+    CidNotRequired s → DbGood s db → HistoryOk s h →
+    CidNotRequired (runHistory s db h).1 ∧ DbGood (runHistory s db h).1 (runHistory s db h).2 := by
+  intro h
+  induction h with
+  | nil => intro s db hs hdb _; exact ⟨hs, hdb⟩
+  | cons st r ih =>
+    intro s db hs hdb hok
+    cases st with
+    | op o =>
+      simp only [runHistory]
+      exact ih s _ hs (applyOp_good hs hok.1 hdb) hok.2
+    | reload s' =>
+      simp only [runHistory]
+      exact ih s' db hok.2.1 (fun e he => good_mono hok.1 (hdb e he)) hok.2.2
+
 end Kanidm.SchemaCheck
